@@ -197,7 +197,10 @@ class Kernel:
         if fo.kind == "EXT":
             k.sense, k.strict = fo.sense, fo.strict
             fe = self.first_elem_init(init, loop) if init is not None else None
-            if fe is not None and fe == k.term:
+            if getattr(fo, "none_seeded", False):
+                k.init = ("first",)
+                k.first_filter = k.filter
+            elif fe is not None and fe == k.term:
                 k.init = ("first",)
                 k.first_filter = self.first_filter(init, loop)
             else:
@@ -211,6 +214,7 @@ class Kernel:
         elif fo.kind == "ARGSET":
             k.label = self.canon(fo.label, loop.id)
             k.ties = fo.ties
+            k.tie_cond = self.canon(getattr(fo, "tie_cond", None), loop.id) if getattr(fo, "tie_cond", None) else None
             k.of = self._from_fold(loop, fo.of, self._classified(loop.id)[fo.of])
             k.init = self.canon_top(init)
         elif fo.kind == "OTHER":
